@@ -10,6 +10,7 @@ with `Change.Apply` for `AddFeatures`/`AddTags`/`RemoveTags`/`MergedChange` as w
 `targets` = the IDs the change names).  All theorems are for every world and every change, of any nesting
 depth of `MergedChange`.
 -/
+set_option linter.unusedSimpArgs false
 namespace B6.Props.C26
 open B6.Model.Service B6.Spec.ChangeSpec B6.Lemmas.Service
 
@@ -17,15 +18,15 @@ open B6.Model.Service B6.Spec.ChangeSpec B6.Lemmas.Service
 succeeds the world is the reference world and the returned IDs are, as a set, the IDs the change names. -/
 def ApplyMeets (w : World) (c : Change) : Prop :=
   match specApply w c with
-  | some w' => (apply w c).ok = true ∧ (apply w c).world = w' ∧ SameIds (apply w c).ids (targets c)
-  | none => (apply w c).ok = false
+  | some w' => (apply false w c).ok = true ∧ (apply false w c).world = w' ∧ SameIds (apply false w c).ids (targets c)
+  | none => (apply false w c).ok = false
 
 mutual
 theorem apply_meets (w : World) : (c : Change) → ApplyMeets w c
   | .addFeatures fs => by
     unfold ApplyMeets
     have h := addFeatures_loop fs w []
-    simp only [specApply, apply, targets]
+    simp only [specApply, apply, targets, applyAddFeaturesR, applyAddTagsR, applyRemoveTagsR, Bool.false_eq_true, ↓reduceIte]
     cases hs : addFeaturesSpec w fs with
     | none => simp [hs] at h ⊢; exact h
     | some w' =>
@@ -35,7 +36,7 @@ theorem apply_meets (w : World) : (c : Change) → ApplyMeets w c
   | .addTags ts => by
     unfold ApplyMeets
     have h := addTags_loop ts w []
-    simp only [specApply, apply, targets]
+    simp only [specApply, apply, targets, applyAddFeaturesR, applyAddTagsR, applyRemoveTagsR, Bool.false_eq_true, ↓reduceIte]
     cases hs : addTagsSpec w ts with
     | none => simp [hs] at h ⊢; exact h
     | some w' =>
@@ -45,7 +46,7 @@ theorem apply_meets (w : World) : (c : Change) → ApplyMeets w c
   | .removeTags ts => by
     unfold ApplyMeets
     have h := removeTags_loop ts w []
-    simp only [specApply, apply, targets]
+    simp only [specApply, apply, targets, applyAddFeaturesR, applyAddTagsR, applyRemoveTagsR, Bool.false_eq_true, ↓reduceIte]
     cases hs : removeTagsSpec w ts with
     | none => simp [hs] at h ⊢; exact h
     | some w' =>
@@ -56,7 +57,7 @@ theorem apply_meets (w : World) : (c : Change) → ApplyMeets w c
     unfold ApplyMeets
     have hc := canary_meets w cs
     have hp := pass_meets w cs []
-    simp only [specApply, apply, targets]
+    simp only [specApply, apply, targets, applyAddFeaturesR, applyAddTagsR, applyRemoveTagsR, Bool.false_eq_true, ↓reduceIte]
     cases hs : specApplyAll w cs with
     | none => simp [hs] at hc; simp [hc]
     | some w' =>
@@ -79,9 +80,9 @@ theorem canary_meets (w : World) : (cs : Changes) → canaryOk w cs = (specApply
       exact canary_meets w1 cs
 theorem pass_meets (w : World) : (cs : Changes) → (acc : List FId) →
     match specApplyAll w cs with
-    | some w' => (mergedPass w cs acc).ok = true ∧ (mergedPass w cs acc).world = w' ∧
-        (∀ id, id ∈ (mergedPass w cs acc).ids ↔ id ∈ acc ∨ id ∈ targetsAll cs)
-    | none => (mergedPass w cs acc).ok = false
+    | some w' => (mergedPass false w cs acc).ok = true ∧ (mergedPass false w cs acc).world = w' ∧
+        (∀ id, id ∈ (mergedPass false w cs acc).ids ↔ id ∈ acc ∨ id ∈ targetsAll cs)
+    | none => (mergedPass false w cs acc).ok = false
   | .nil, acc => by simp [specApplyAll, mergedPass, targetsAll]
   | .cons c cs, acc => by
     have h := apply_meets w c
@@ -92,7 +93,7 @@ theorem pass_meets (w : World) : (cs : Changes) → (acc : List FId) →
     | some w1 =>
       simp [hs] at h
       simp only [h.1, ↓reduceIte, h.2.1]
-      have ih := pass_meets w1 cs (acc ++ (apply w c).ids)
+      have ih := pass_meets w1 cs (acc ++ (apply false w c).ids)
       cases hs2 : specApplyAll w1 cs with
       | none => simp [hs2] at ih ⊢; exact ih
       | some w2 =>
@@ -139,73 +140,180 @@ theorem spec_frame_all (w w' : World) : (cs : Changes) → specApplyAll w cs = s
         · right; exact hid
 end
 
-/-- The statement of C26 for one evaluator `ev` (a function from the world and the evaluated change to the
-world afterwards and the response):
-* the response is an error **iff** applying the change failed (the change is not applicable to the world);
+/-! ### read-only worlds: the real pass fails although the canary accepted -/
+
+theorem elementFree_apply (ro : Bool) : ∀ (w : World) (c : Change), elementFree c = true → apply ro w c = ⟨w, [], true⟩
+  | w, .addFeatures fs, h => by
+    cases fs with
+    | nil => cases ro <;> simp [apply, applyAddFeaturesR, applyAddFeatures]
+    | cons _ _ => simp [elementFree] at h
+  | w, .addTags ts, h => by
+    cases ts with
+    | nil => cases ro <;> simp [apply, applyAddTagsR, applyAddTags]
+    | cons _ _ => simp [elementFree] at h
+  | w, .removeTags ts, h => by
+    cases ts with
+    | nil => cases ro <;> simp [apply, applyRemoveTagsR, applyRemoveTags]
+    | cons _ _ => simp [elementFree] at h
+  | w, .merged cs, h => by
+    simp only [elementFree] at h
+    have hc := elementFree_canary w cs h
+    have hp := elementFree_pass ro w cs [] h
+    simp [apply, hc, hp]
+where
+  elementFree_canary : ∀ (w : World) (cs : Changes), elementFreeAll cs = true → canaryOk w cs = true
+    | w, .nil, _ => by simp [canaryOk]
+    | w, .cons c cs, h => by
+      simp only [elementFreeAll, Bool.and_eq_true] at h
+      simp [canaryOk, elementFree_apply false w c h.1, elementFree_canary w cs h.2]
+  elementFree_pass (ro : Bool) : ∀ (w : World) (cs : Changes) (acc : List FId), elementFreeAll cs = true →
+      mergedPass ro w cs acc = ⟨w, acc, true⟩
+    | w, .nil, acc, _ => by simp [mergedPass]
+    | w, .cons c cs, acc, h => by
+      simp only [elementFreeAll, Bool.and_eq_true] at h
+      simp [mergedPass, elementFree_apply ro w c h.1, elementFree_pass ro w cs acc h.2]
+
+mutual
+/-- on a read-only world `Apply` never changes the world, and succeeds (with no IDs) exactly when the change has no
+element — in particular a `MergedChange` whose parts the canary accepted still FAILS in the real pass -/
+theorem apply_readonly (w : World) : (c : Change) →
+    (apply true w c).world = w ∧ (apply true w c).ok = elementFree c
+  | .addFeatures fs => by cases fs <;> simp [apply, applyAddFeaturesR, elementFree]
+  | .addTags ts => by cases ts <;> simp [apply, applyAddTagsR, elementFree]
+  | .removeTags ts => by cases ts <;> simp [apply, applyRemoveTagsR, elementFree]
+  | .merged cs => by
+    have hp := pass_readonly w cs []
+    simp only [apply, elementFree]
+    by_cases hc : canaryOk w cs = true
+    · simp [hc, hp]
+    · simp only [hc, Bool.false_eq_true, ↓reduceIte, true_and]
+      cases he : elementFreeAll cs with
+      | false => rfl
+      | true => exact absurd (elementFree_apply.elementFree_canary w cs he) hc
+theorem pass_readonly (w : World) : (cs : Changes) → (acc : List FId) →
+    (mergedPass true w cs acc).world = w ∧ (mergedPass true w cs acc).ok = elementFreeAll cs
+  | .nil, acc => by simp [mergedPass, elementFreeAll]
+  | .cons c cs, acc => by
+    have h := apply_readonly w c
+    unfold mergedPass
+    by_cases hok : (apply true w c).ok = true
+    · simp only [hok, ↓reduceIte, h.1]
+      have ih := pass_readonly w cs (acc ++ (apply true w c).ids)
+      rw [h.2] at hok
+      simp [elementFreeAll, hok, ih]
+    · simp only [hok, Bool.false_eq_true, ↓reduceIte, h.1, true_and]
+      rw [h.2] at hok
+      simp at hok
+      simp [elementFreeAll, hok]
+end
+
+/-- The statement of C26 for one evaluator `ev` on worlds of kind `ro` (read-only or mutable):
+* the response is an error **iff** applying the change to the REAL world failed (`specApplyR ro` = `none`);
 * on success the response carries IDs that are, as a set, the features the change names, the world is the
   reference world, every feature outside the returned IDs is untouched and every returned ID exists. -/
-def ReportsIff (ev : World → Change → World × Resp) : Prop :=
+def ReportsIff (ro : Bool) (ev : World → Change → World × Resp) : Prop :=
   ∀ (w : World) (c : Change),
-    ((ev w c).2 = Resp.error ↔ specApply w c = none) ∧
-    (∀ w', specApply w c = some w' →
-      ∃ ids, ev w c = (w', Resp.ids ids) ∧ SameIds ids (targets c) ∧
+    ((ev w c).2 = Resp.error ↔ specApplyR ro w c = none) ∧
+    (∀ w', specApplyR ro w c = some w' →
+      ∃ ids, ev w c = (w', Resp.ids ids) ∧ SameIds ids (if ro then [] else targets c) ∧
         (∀ id, id ∉ ids → find w' id = find w id) ∧ (∀ id, id ∈ ids → (find w' id).isSome))
 
-theorem reports_of_meets (ev : World → Change → World × Resp)
-    (hev : ∀ w c, ev w c = if (apply w c).ok then ((apply w c).world, Resp.ids (apply w c).ids)
-                           else ((apply w c).world, Resp.error)) : ReportsIff ev := by
+theorem reports_of_meets (ro : Bool) (ev : World → Change → World × Resp)
+    (hev : ∀ w c, ev w c = if (apply ro w c).ok then ((apply ro w c).world, Resp.ids (apply ro w c).ids)
+                           else ((apply ro w c).world, Resp.error)) : ReportsIff ro ev := by
   intro w c
-  have h := apply_meets w c
-  unfold ApplyMeets at h
   rw [hev w c]
-  cases hs : specApply w c with
-  | none => simp [hs] at h; simp [h]
-  | some w1 =>
-    simp [hs] at h
-    simp only [h.1, ↓reduceIte]
-    refine ⟨by simp, ?_⟩
-    intro w' hw'
-    simp at hw'; subst hw'
-    obtain ⟨fr, ex⟩ := spec_frame w w1 c hs
-    refine ⟨(apply w c).ids, by rw [h.2.1], h.2.2, ?_, ?_⟩
-    · intro id hid
-      exact fr id (fun hm => hid ((h.2.2 id).2 hm))
-    · intro id hid
-      exact ex id (Or.inr ((h.2.2 id).1 hid))
+  cases ro with
+  | true =>
+    have h := apply_readonly w c
+    simp only [specApplyR, ↓reduceIte]
+    cases he : elementFree c with
+    | false => rw [he] at h; simp [h.2]
+    | true =>
+      have ha := elementFree_apply true w c he
+      simp only [ha, ↓reduceIte]
+      refine ⟨by simp, ?_⟩
+      intro w' hw'
+      simp at hw'; subst hw'
+      exact ⟨[], rfl, fun _ => Iff.rfl, fun _ _ => rfl, fun id hid => by simp at hid⟩
+  | false =>
+    have h := apply_meets w c
+    unfold ApplyMeets at h
+    simp only [specApplyR, Bool.false_eq_true, ↓reduceIte]
+    cases hs : specApply w c with
+    | none => simp [hs] at h; simp [h]
+    | some w1 =>
+      simp [hs] at h
+      simp only [h.1, ↓reduceIte]
+      refine ⟨by simp, ?_⟩
+      intro w' hw'
+      simp at hw'; subst hw'
+      obtain ⟨fr, ex⟩ := spec_frame w w1 c hs
+      refine ⟨(apply false w c).ids, by rw [h.2.1], h.2.2, ?_, ?_⟩
+      · intro id hid
+        exact fr id (fun hm => hid ((h.2.2 id).2 hm))
+      · intro id hid
+        exact ex id (Or.inr ((h.2.2 id).1 hid))
 
-/-- gRPC `service.Evaluate` (compatible client version, expression evaluated to the change `c`). -/
-theorem grpc_reports_iff : ReportsIff (fun w c => grpcEvaluate true w (.change c)) :=
-  reports_of_meets _ (by intro w c; simp [grpcEvaluate])
+/-- gRPC `service.Evaluate` (compatible client version, expression evaluated to the change `c`), on mutable and on
+read-only worlds. -/
+theorem grpc_reports_iff (ro : Bool) : ReportsIff ro (fun w c => grpcEvaluate true ro w (.change c)) :=
+  reports_of_meets ro _ (by intro w c; simp [grpcEvaluate])
 
-/-- UI/api `Evaluator.EvaluateExpression` (after the repair). -/
-theorem ui_reports_iff : ReportsIff (fun w c => uiEvaluate w (.change c)) :=
-  reports_of_meets _ (by intro w c; simp [uiEvaluate])
+/-- UI/api `Evaluator.EvaluateExpression` (after the repair), on mutable and on read-only worlds. -/
+theorem ui_reports_iff (ro : Bool) : ReportsIff ro (fun w c => uiEvaluate ro w (.change c)) :=
+  reports_of_meets ro _ (by intro w c; simp [uiEvaluate])
 
 /-- Outside the change branch both evaluators leave the world alone: incompatible version, evaluation error,
 non-change value. -/
-theorem no_change_no_write (w : World) (v : Bool) :
-    (grpcEvaluate false w (.error)).1 = w ∧ (∀ e, (grpcEvaluate false w e) = (w, Resp.error)) ∧
-    (grpcEvaluate v w .error).1 = w ∧ (grpcEvaluate v w .plain).1 = w ∧
-    (uiEvaluate w .error) = (w, Resp.error) ∧ (uiEvaluate w .plain) = (w, Resp.plain) := by
+theorem no_change_no_write (w : World) (v ro : Bool) :
+    (∀ e, (grpcEvaluate false ro w e) = (w, Resp.error)) ∧
+    (grpcEvaluate v ro w .error).1 = w ∧ (grpcEvaluate v ro w .plain).1 = w ∧
+    (uiEvaluate ro w .error) = (w, Resp.error) ∧ (uiEvaluate ro w .plain) = (w, Resp.plain) := by
   cases v <;> simp [grpcEvaluate, uiEvaluate]
 
-/-- A failed `MergedChange` is reported as an error and leaves the world as it was (the canary). -/
-theorem merged_error_world_unchanged (w : World) (cs : Changes) (h : specApply w (.merged cs) = none) :
-    grpcEvaluate true w (.change (.merged cs)) = (w, Resp.error) ∧
-    uiEvaluate w (.change (.merged cs)) = (w, Resp.error) := by
-  have hc := canary_meets w cs
-  simp only [specApply] at h
-  simp [h] at hc
-  simp [grpcEvaluate, uiEvaluate, apply, hc]
+/-- A failed `MergedChange` is reported as an error and leaves the world as it was — on a mutable world because
+the canary rejected it, on a read-only world because the real pass fails at the first element although the canary
+accepted it. -/
+theorem merged_error_world_unchanged (ro : Bool) (w : World) (cs : Changes)
+    (h : specApplyR ro w (.merged cs) = none) :
+    grpcEvaluate true ro w (.change (.merged cs)) = (w, Resp.error) ∧
+    uiEvaluate ro w (.change (.merged cs)) = (w, Resp.error) := by
+  cases ro with
+  | false =>
+    have hc := canary_meets w cs
+    simp only [specApplyR, Bool.false_eq_true, ↓reduceIte, specApply] at h
+    simp [h] at hc
+    simp [grpcEvaluate, uiEvaluate, apply, hc]
+  | true =>
+    have ha := apply_readonly w (.merged cs)
+    simp only [specApplyR, ↓reduceIte] at h
+    have he : elementFree (.merged cs) = false := by
+      cases hx : elementFree (Change.merged cs) with
+      | false => rfl
+      | true => simp [hx] at h
+    rw [he] at ha
+    simp [grpcEvaluate, uiEvaluate, ha.1, ha.2]
 
 /-- The evaluator as it was before the repair swallowed the error: `add-tag` on a missing feature is not
 applicable, yet the caller got a (successful) `AppliedChange` with no IDs.  Kept as the record of the defect;
 the harness corpus replays this input against the real evaluator. -/
 theorem ui_swallowed_error_before_fix :
-    ¬ ReportsIff (fun w c => uiEvaluateBeforeFix w (.change c)) := by
+    ¬ ReportsIff false (fun w c => uiEvaluateBeforeFix false w (.change c)) := by
   intro h
   have := (h [] (.addTags [(⟨.point, 1⟩, "a", "b")])).1
   exact absurd (this.2 (by decide)) (by decide)
+
+/-- **A `MergedChange.Apply` that trusts the canary** (`applyUnchecked`: the second loop does not look at the error
+of a part) breaks the statement on a read-only world: `merge-changes` of one `add-tag` on an existing feature is
+accepted by the canary, rejected by the real world, and reported as applied with an empty ID collection — while
+the same `add-tag` alone is reported as an error. -/
+theorem unchecked_merge_reports_success_on_readonly :
+    let w : World := [⟨⟨.point, 1⟩, [], []⟩]
+    let tag : Change := .addTags [(⟨.point, 1⟩, "a", "b")]
+    specApplyR true w (.merged (.cons tag .nil)) = none ∧
+    applyUnchecked true w (.merged (.cons tag .nil)) = ⟨w, [], true⟩ ∧
+    (apply true w (.merged (.cons tag .nil))).ok = false ∧ (apply true w tag).ok = false := by decide
 
 /-! ### the hypotheses are satisfiable / the statements are not vacuous -/
 
@@ -215,13 +323,17 @@ def way : Feature := ⟨⟨.path, 7⟩, [("#highway", "path")], [⟨.point, 1⟩
 def good : Change := .merged (.cons (.addFeatures [p2, way]) (.cons (.addTags [(⟨.point, 1⟩, "b", "2")]) .nil))
 def bad : Change := .merged (.cons (.addTags [(⟨.point, 1⟩, "b", "2")]) (.cons (.addFeatures [way]) .nil))
 
-example : (grpcEvaluate true [p1] (.change good)).2 = Resp.ids [⟨.point, 2⟩, ⟨.path, 7⟩, ⟨.point, 1⟩] := by decide
+example : (grpcEvaluate true false [p1] (.change good)).2 = Resp.ids [⟨.point, 2⟩, ⟨.path, 7⟩, ⟨.point, 1⟩] := by decide
 example : (specApply [p1] good).isSome = true := by decide
-example : specApply [p1] bad = none ∧ grpcEvaluate true [p1] (.change bad) = ([p1], Resp.error) := by decide
-example : uiEvaluate [] (.change (.addTags [(⟨.point, 1⟩, "a", "b")])) = ([], Resp.error) := by decide
-example : (uiEvaluateBeforeFix [] (.change (.addTags [(⟨.point, 1⟩, "a", "b")]))).2 = Resp.ids [] := by decide
+example : specApply [p1] bad = none ∧ grpcEvaluate true false [p1] (.change bad) = ([p1], Resp.error) := by decide
+example : uiEvaluate false [] (.change (.addTags [(⟨.point, 1⟩, "a", "b")])) = ([], Resp.error) := by decide
+example : (uiEvaluateBeforeFix false [] (.change (.addTags [(⟨.point, 1⟩, "a", "b")]))).2 = Resp.ids [] := by decide
 -- a non-atomic failure: the first tag stays although the caller is (rightly) told the change failed
-example : grpcEvaluate true [p1] (.change (.addTags [(⟨.point, 1⟩, "b", "2"), (⟨.point, 9⟩, "b", "2")]))
+example : grpcEvaluate true false [p1] (.change (.addTags [(⟨.point, 1⟩, "b", "2"), (⟨.point, 9⟩, "b", "2")]))
     = ([⟨⟨.point, 1⟩, [("a", "1"), ("b", "2")], []⟩], Resp.error) := by decide
+-- read-only: the canary accepts `good`, the real world rejects it; an element-free change "applies"
+example : canaryOk [p1] (.cons (.addFeatures [p2, way]) (.cons (.addTags [(⟨.point, 1⟩, "b", "2")]) .nil)) = true ∧
+    grpcEvaluate true true [p1] (.change good) = ([p1], Resp.error) ∧
+    uiEvaluate true [p1] (.change (.merged (.cons (.addTags []) .nil))) = ([p1], Resp.ids []) := by decide
 
 end B6.Props.C26
